@@ -369,4 +369,30 @@ theorem construct_entry {cls f r} (h : construct cls f = some r) :
     exact ⟨e, List.mem_of_find?_eq_some he, by simpa using List.find?_some he, h⟩
   · cases h
 
+theorem dtcExtBody_kind {e : Entry} {dtc status recs r} (hk : e.kind = .dtcExt) (h : dtcExtBody e dtc status recs = some r) :
+    r.kind? = some e.kind := by
+  unfold dtcExtBody at h
+  split at h
+  · cases h
+  · split at h
+    · rename_i n d rest hx
+      cases ht : extTail rest with
+      | none => simp [ht] at h
+      | some t => simp [ht] at h; subst h; simp [Resp.kind?, hk]
+    · cases h
+
+theorem constructE_kind {e : Entry} {f : Fields} {r : Resp} (h : constructE e f = some r) : r.kind? = some e.kind := by
+  cases f <;> simp only [constructE] at h <;> split at h <;> try (cases h; done)
+  all_goals (rename_i hc)
+  all_goals first
+    | (simp [Option.map_eq_some_iff] at h; obtain ⟨_, _, rfl⟩ := h; simp [Resp.kind?, hc])
+    | (cases h; simp [Resp.kind?, hc])
+    | skip
+  all_goals (repeat (split at h <;> try (cases h; done)))
+  all_goals first
+    | (cases h; simp [Resp.kind?, hc])
+    | (simp [Option.map_eq_some_iff] at h; obtain ⟨_, _, rfl⟩ := h; simp [Resp.kind?, hc])
+    | exact dtcExtBody_kind hc h
+    | skip
+
 end Gallia.UdsResp
